@@ -144,6 +144,18 @@ pub fn death_case(i: u64, seed: u64, stride: u64, offsets: &[u32]) -> Scenario {
         sc.ops.push(Op::LinkDown { tick: kt as u32 - off, from: peer_addr(1), to: peer_addr(0) });
     }
     sc.ops.push(Op::Kill { tick: kt as u32, peer: 1 });
+    if c % 3 == 1 {
+        // the dead peer's application is restarted on the same address and keeps knocking (another session's
+        // handshake packets, foreign magic, every ~200 ms): that is not a sign of life of the old session
+        let mut t = kt as u32 + 3;
+        let end = kt as u32 + sc.settle;
+        let mut j = 0;
+        while t < end {
+            sc.ops.push(Op::Forge { tick: t, to: peer_addr(0), from: peer_addr(1), kind: [10u8, 10, 11, 7][j % 4], a: 3 + (j as i32 % 5), b: j as i32, bytes: vec![] });
+            t += 12;
+            j += 1;
+        }
+    }
     if !sc.specs.is_empty() && (kt / stride.max(1)) % 2 == 1 {
         // the survivor's spectator falls silent at the same instant: both endpoints time out together
         sc.ops.push(Op::LinkDown { tick: kt as u32, from: spec_addr(0), to: peer_addr(0) });
@@ -220,7 +232,7 @@ pub fn run_prop(ctx: &Ctx) -> PropReport {
     let n = NBASE * per;
     let offs = offsets.clone();
     rep.part(|| run_enum(ctx, "death",
-        "fault enumeration: 288 base configs (window {0,1,2,8} x delay {0,2} x players per side {1+1,2+1,1+2} x sparse x spectator on the survivor x latency {0,20,60 ms}, timeouts from {100/300, 300/1000, 500/2000, 800/3000 ms}) x moment of death = every 2nd (quick) / every (thorough) tick of a 120-tick window x the dying peer's last 0/2 (quick) 0/1/2/4 (thorough) ticks of packets lost; oracle: exact NetworkInterrupted / Disconnected instants predicted from the survivor's poll instants and packet deliveries (first poll after last-receive + notify resp. + timeout, once each, disconnect_timeout field = timeout - notify), survivor and its spectator keep advancing, final timeline = real inputs up to the last received frame then default/Disconnected, spectator identical; non-trivial = the drop was detected and a frame beyond the cut-off had been simulated with a prediction before (or lockstep)",
+        "fault enumeration: 288 base configs (window {0,1,2,8} x delay {0,2} x players per side {1+1,2+1,1+2} x sparse x spectator on the survivor x latency {0,20,60 ms}, timeouts from {100/300, 300/1000, 500/2000, 800/3000 ms}) x moment of death = every 2nd (quick) / every (thorough) tick of a 120-tick window x the dying peer's last 0/2 (quick) 0/1/2/4 (thorough) ticks of packets lost; in a third of the base configs another session's handshake packets (foreign magic) keep arriving from the dead peer's address; oracle: exact NetworkInterrupted / Disconnected instants predicted from the survivor's poll instants and packet deliveries (first poll after last-receive + notify resp. + timeout, once each, disconnect_timeout field = timeout - notify), survivor and its spectator keep advancing, final timeline = real inputs up to the last received frame then default/Disconnected, spectator identical; non-trivial = the drop was detected and a frame beyond the cut-off had been simulated with a prediction before (or lockstep)",
         n, move |i| death_case(i, seed, stride, &offs), eval, ctx.tier == Tier::Thorough));
     let m = ctx.tier.pick(NBASE * 2, NBASE * 10);
     rep.part(|| run_enum(ctx, "disconnect_player",
